@@ -56,7 +56,8 @@ def run(tier, replay):
     wd = lib.workdir(PID)
     lib.build("txn")
     quick = tier == "quick"
-    mc = lib.tlc("KTxnFaultMC", cfg="KTxnFaultMC", pid=PID, workers=2, timeout=600)
+    order, sfx, order_labels = txn_common.commit_order()
+    mc = lib.tlc("KTxnFaultMC", cfg="KTxnFaultMC" + sfx, pid=PID, workers=2, timeout=600)
     lib.tlc_must_pass(mc, "KTxnFaultMC: commit step list with Fail(k)/Crash(k)/Abandon")
     hyp = sorted(set((t[1], t[2], t[3]) for t in mc["tuples"] if t[0] == "HYP"))
     obs = f"{wd}/obs.ndjson"
@@ -71,7 +72,7 @@ def run(tier, replay):
                            "create,modify,delete,schema,schemaidx,acp,oauth2,domain", "--stride", 60, "--reopen-init"],
                    timeout=6000)
     txn_common.cleanup(db)
-    tv = lib.trace_validate("KTxnFaultTrace", obs, PID, timeout=1500)
+    tv = lib.trace_validate("KTxnFaultTrace", obs, PID, cfg="KTxnFaultTrace" + sfx, timeout=1500)
     lines = lib.read_lines(obs)
     recs = [json.loads(l) for l in lines]
     # vacuity: every reference run must move its probe, otherwise the observation is blind
@@ -99,6 +100,7 @@ def run(tier, replay):
     refs = {r["kind"]: {"points": r["n"], "passed": r["points"]} for r in recs if r["a"] == "ref"}
     kinds_run = set(refs)
     R.coverage = {
+        "commit_order_of_tree_under_test": order,
         "evaluations": len(recs),
         "distinct_nontrivial": len([k for k in classes if not k.startswith("ref/")]),
         "rule": "one evaluation = one transaction run on a fresh copy of the file-backed server with one injected event, observed "
